@@ -74,6 +74,10 @@ pub struct Variant {
     /// standard output is a terminal
     #[serde(default)]
     pub stdout_tty: bool,
+    /// the input path behaves like a FIFO / `/dev/stdin` / process substitution: it delivers the
+    /// data but its metadata reports size 0
+    #[serde(default)]
+    pub input_sizeless: bool,
 }
 
 /// Hard faults, where C20 promises nothing: executed as non-gating probes (counted in the
@@ -237,6 +241,7 @@ fn gen_variant(rng: &mut Rng, scn_targets: usize, doc: &Doc, mode: Mode) -> Vari
         io: gen_io(rng),
         bystanders,
         stdout_tty: rng.chance(1, 5),
+        input_sizeless: rng.chance(1, 8),
     }
 }
 
@@ -301,6 +306,10 @@ pub fn generate(seed: u64) -> C20Scn {
         // degenerate inputs: nothing at all, or a single (blank) line
         doc.nodes = if rng.chance(1, 2) { vec![] } else { vec![doc::Node::Line(String::new())] };
         doc.pad = None;
+    }
+    if rng.chance(1, 50) {
+        // a legal if odd configuration: the same tag name for both kinds of element
+        doc.rm_tag = doc.tl_tag.clone();
     }
     sanitize_names(&mut doc);
     crate::c19::avoid_known_c01_panic(&mut doc);
@@ -487,7 +496,11 @@ pub fn build_exec(scn: &C20Scn, v: &Variant, text: &str) -> (Fs, Exec, Option<St
             }
         }
     }
-    (fs, Exec { argv, stdin, env: v.env.clone(), clock, io: v.io.clone(), stdout_tty: v.stdout_tty }, out_path)
+    let sizeless = match (&v.input, &v.output, v.input_sizeless) {
+        (Input::File { path, .. }, Output::Stdout, true) | (Input::File { path, .. }, Output::File { .. }, true) => vec![path.clone()],
+        _ => vec![],
+    };
+    (fs, Exec { argv, stdin, env: v.env.clone(), clock, io: v.io.clone(), stdout_tty: v.stdout_tty, sizeless }, out_path)
 }
 
 pub fn run(scn: &C20Scn, stats: &mut RunStats) -> Option<Violation> {
@@ -985,6 +998,9 @@ pub fn shrink_candidates(s: &C20Scn) -> Vec<C20Scn> {
         push(nv);
         let mut nv = v.clone();
         nv.stdout_tty = false;
+        push(nv);
+        let mut nv = v.clone();
+        nv.input_sizeless = false;
         push(nv);
         let mut nv = v.clone();
         nv.explicit_defaults = 0;
